@@ -39,7 +39,7 @@ import (
 	"github.com/plgd-dev/go-coap/v3/udp/client"
 )
 
-const c11ConnWatchdog = 25 * time.Second
+// see c11WD in c11.go (30 s; short after repeated hangs in one invocation)
 
 // c11Item is one datagram of a script. ops[j].r == 0 means "response never injected".
 type c11Item struct {
@@ -352,7 +352,7 @@ func runC11Conn(n int, items []c11Item) (string, bool) {
 
 	// wait: cond is evaluated under st.mu; woken by state changes of st, and polls (the session output has no notifier)
 	wait := func(what string, cond func() bool) bool {
-		deadline := time.Now().Add(c11ConnWatchdog)
+		deadline := time.Now().Add(c11WD())
 		for {
 			st.mu.Lock()
 			ok := cond()
@@ -361,6 +361,7 @@ func runC11Conn(n int, items []c11Item) (string, bool) {
 				return true
 			}
 			if time.Now().After(deadline) {
+				c11Hangs.Add(1)
 				if dbg {
 					fmt.Fprintf(os.Stderr, "c11conn: watchdog: %s (%s)\n", what, c11ConnDesc(n, items))
 				}
@@ -416,7 +417,8 @@ func runC11Conn(n int, items []c11Item) (string, bool) {
 			if res != 0 {
 				st.errf("inject %d: result %d", i, res)
 			}
-		case <-time.After(c11ConnWatchdog):
+		case <-time.After(c11WD()):
+			c11Hangs.Add(1)
 			if dbg {
 				fmt.Fprintf(os.Stderr, "c11conn: watchdog: Process of %d (%s)\n", i, c11ConnDesc(n, items))
 			}
